@@ -23,6 +23,7 @@ def mustRejectWith (cf : String → List SExpr → Option CmpK) : BExpr → Opti
   | .not (.eq a b) => govRel .strict a b
   | .not (.equalFold a b) => govRel .fold a b
   | .not (.addrEq a b) => govRel .addr a b
+  | .not (.decEq d a b) => govRel (CmpK.ofDec d) a b
   | .or x y =>
     match mustRejectWith cf x with
     | some c => some c
@@ -60,9 +61,39 @@ def depProtected (P : Program) (T m : String) : Option CmpK :=
 /-- the regenerated dependency program -/
 def depProg : Program := ⟨C16Dep.helpers, C16Dep.impls, C16Dep.types⟩
 
-/-- dependency handlers whose authority check is NOT a leading comparison with the keeper's authority string; they stay
-covered by the handler-level and router-level monitor sweeps only.  `MsgExecLegacyContent` (SDK x/gov) reads the
-governance module account from state and compares the message's authority with its address. -/
+/-- dependency handlers whose authority check is NOT a leading comparison with the keeper's authority string.
+`MsgExecLegacyContent` (SDK x/gov) reads the governance module account from the x/auth state and compares the message's
+authority with ITS address string: modelled by `stateGuardBody` below (round 4; monitor-only before). -/
 def depExceptions : List String := ["github.com/cosmos/cosmos-sdk/x/gov/types/v1.MsgExecLegacyContent"]
+
+/-- the guard program of a state-reading handler: after statements that cannot touch state and statements that fetch a
+module account from the x/auth state, a rejecting `if` that compares (`!=`) the address string of the module account
+named `govName` — as the state has it — with the request's authority -/
+def isStateGuard (govName : String) : BExpr → Bool
+  | .ne (.moduleAccInState n) .reqAuthority => n == govName
+  | .ne .reqAuthority (.moduleAccInState n) => n == govName
+  | _ => false
+
+def stateGuardBody (govName : String) : List Stmt → Bool
+  | .nop _ :: rest => stateGuardBody govName rest
+  | .ensureModuleAcc _ _ :: rest => stateGuardBody govName rest
+  | .rejectIf g :: _ => isStateGuard govName g
+  | _ => false
+
+/-- the module accounts a body fetches (and would create, were they missing) before its guard -/
+def ensuredBefore : List Stmt → List String
+  | .nop _ :: rest => ensuredBefore rest
+  | .ensureModuleAcc n _ :: rest => n :: ensuredBefore rest
+  | _ => []
+
+def depStateGuarded (P : Program) (govName T m : String) : Bool :=
+  match resolve P T m with
+  | some impl => stateGuardBody govName impl.body
+  | none => false
+
+def depEnsured (P : Program) (T m : String) : List String :=
+  match resolve P T m with
+  | some impl => ensuredBefore impl.body
+  | none => []
 
 end FxVerif.Model.C16
